@@ -23,6 +23,7 @@
 -/
 import AGV.Spec.WsProto
 import AGV.Gen.WsWire
+import AGV.Model.WsFrame
 
 namespace AGV.Model.Ws
 open AGV.Spec.WsProto
@@ -184,5 +185,36 @@ def run (D : Defects) : State → List Env → List Ev
   | s, e :: h =>
     match poll D s e with
     | (s', taken, o) => pollEvents taken o ++ (if o = .done then [] else run D s' h)
+
+-- ------------------------------------------------------------------ frames
+
+/-
+  What the message loop does with one frame taken from the socket:
+
+      match serde_json::from_slice::<ClientMessage>(&message) { Ok(message) => message,
+          Err(err) => { *this.close = true; return Poll::Ready(Some(WsMessage::Close(1002, err.to_string()))) } }
+
+  `Model.WsFrame.decode` is `ClientMessage::from_bytes`; the session model above works on the
+  decoded message with operation ids renamed to numbers by an injective `ι` (the driver numbers
+  the ids of a script in order of first appearance).  A frame that does not decode is `CMsg.bad`.
+-/
+
+/-- the session-level reading of a decoded frame -/
+def cmsgOf (ι : List Char → Nat) : Option AGV.Spec.WsFrame.WMsg → CMsg
+  | none => .bad
+  | some (.init _) => .init
+  | some (.start id _) => .start (ι id)
+  | some (.stop id) => .stop (ι id)
+  | some .term => .term
+  | some (.ping _) => .ping
+  | some (.pong _) => .pong
+
+/-- a frame (valid UTF-8) as the session sees it -/
+def frameMsg (DF : WsFrame.Defects) (ι : List Char → Nat) (cs : List Char) : CMsg :=
+  cmsgOf ι (WsFrame.decode DF cs)
+
+/-- the loop body on a frame -/
+def handleFrame (D : Defects) (DF : WsFrame.Defects) (ι : List Char → Nat) (s : State) (cs : List Char) : Act :=
+  handle D s (frameMsg DF ι cs)
 
 end AGV.Model.Ws
